@@ -386,6 +386,60 @@ pub fn main(args: &[String]) {
                 rec.exercise(&mut rng, s, per_string, &kinds, &profiles);
             }
         }
+        "echo" => {
+            // the same string through one profile / class and IMMEDIATELY afterwards through another one, in the same API
+            // form: state left behind by the first call (memo of the last label, per-code-point caches shared between the
+            // classes, statics shared between instantiations of a generic function) shows up in the second result
+            let specials: [&str; 16] = [
+                "guy brush", "Ab cd", "Alice", "\u{3c0}\u{221e}", "a\u{3000}b", "E = mc\u{b2}", "\u{ff21}b\u{3000}c\u{ff44}", "Juliet@Example.COM",
+                "\u{3a3}\u{391}\u{39c}", "\u{130}stanbul", "\u{c9}milie\u{ff21}", "pass word", "\u{2163} x", "a\u{301}", "\u{5d0}\u{5d1} 1", "x_\u{aa}",
+            ];
+            let mut strings: Vec<String> = specials.iter().map(|x| x.to_string()).collect();
+            for i in 0..n_strings {
+                if i % 3 == 0 {
+                    // a character and its aliases under truncation of the code point to 16 or 20 bits
+                    let (_, c) = pools.draw(&mut rng);
+                    let c = c & 0xffff;
+                    let mut t = String::new();
+                    for v in [c, c + 0x10000, c + 0x100000, c] {
+                        if let Some(ch) = char::from_u32(v) {
+                            t.push(ch);
+                        }
+                    }
+                    strings.push(t);
+                } else {
+                    strings.push(pools.string(&mut rng, max_len));
+                }
+            }
+            for s0 in strings.iter() {
+                let args = [s0.clone()];
+                for op in ["prepare", "enforce"] {
+                    for form in FORMS.iter() {
+                        for p in PROFILES.iter() {
+                            for q in PROFILES.iter().filter(|q| *q != p) {
+                                if !profiles.iter().any(|x| x == p || x == q) {
+                                    continue;
+                                }
+                                for who in [p, q] {
+                                    let (kn, kind) = *rng.pick(&ARG_KINDS);
+                                    let (res, _) = call_profile_full(who, form, op, kind, &args);
+                                    rec.emit(json!({"ev": "call", "profile": who, "op": op, "form": form, "arg": kn, "res": res, "c08": "", "borrowed": "-"}), &args);
+                                }
+                            }
+                        }
+                    }
+                }
+                for (a, b) in [("Id", "Ff"), ("Ff", "Id")] {
+                    rec.allows(a, s0);
+                    rec.allows(b, s0);
+                    // a class first, then a profile of the other class
+                    rec.allows(a, s0);
+                    let who = if a == "Id" { "OPQ" } else { "UCP" };
+                    let (res, _) = call_profile_full(who, "inst", "prepare", ArgKind::Str, &args);
+                    rec.emit(json!({"ev": "call", "profile": who, "op": "prepare", "form": "inst", "arg": "str", "res": res, "c08": "", "borrowed": "-"}), &args);
+                }
+            }
+        }
         "pairs" => {
             // the corpus lines taken two at a time: compare(a, b) through every profile asked for
             for ab in corpus.chunks(2) {
